@@ -31,6 +31,10 @@ def gen_case(rng):
     # put some samples exactly on and next to cell faces
     if rng.random() < 0.5:
         c[0, 0] = rng.choice([0.0, 1.0, -1.0, 0.5, 63 / 64, 1 / 64], size=3)
+    if rng.random() < 0.03:
+        # a long, thin cell: several hundred voxels along one axis (index types, strides), few along the others
+        lat = np.array([[66.5, 0.0, 0.0], [0.5, 2.5, 0.0], [0.25, 0.5, 3.25]])[rng.permutation(3)]
+        return {'lattice_name': 'long-thin', 'lattice': lat.tolist(), 'coords': c.tolist(), 'resolution': float(rng.choice([0.2, 0.13]))}
     return {'lattice_name': name, 'lattice': lat.tolist(), 'coords': c.tolist(), 'resolution': float(rng.choice(RES))}
 
 
